@@ -50,6 +50,8 @@ package httpio
 //@   at recv wr.wait: set waited = true
 //@   at call WriteHeader: assert success-only-after-the-handler-consumed-the-stream: $1 == 200 ==> handedOver && waited [C20]
 //@   at call WriteHeader: assert status-codes: $1 == 200 || $1 == 500 [C20]
+//@   at send ch: assert never-blocks-under-the-registry-lock: nolocks() [C20]
+//@   ensures registry-lock-released: nolocks() [C20]
 
 //@ func httpio.ReaderParamDecoder$2
 //@   ghost gotReader : U = nil
@@ -62,6 +64,8 @@ package httpio
 //@   at recv ch: set gotReader = $val
 //@   at call reflect.ValueOf: assert returns-the-reader-received-for-that-id: unbox($0, #*waitReadCloser) == gotReader [C20]
 //@   ensures at-most-one-reader-returned: calls(ValueOf) <= 1 [C20]
+//@   at recv ch: assert never-blocks-under-the-registry-lock: nolocks() [C20]
+//@   ensures registry-lock-released: nolocks() [C20]
 
 //@ func httpio.ReaderParamEncoder$1
 //@   may_panic
